@@ -17,7 +17,7 @@ SolSet(s) == {s[i] + 1 : i \in 1..Len(s)}
 BadSol(s) == IF \E i \in 1..Len(s) : s[i] < 0 \/ s[i] >= Len(M) THEN "Selection.row_index_out_of_range"
              ELSE IF Cardinality(SolSet(s)) # Len(s) THEN "Selection.row_listed_twice"
              ELSE IF SolSet(s) \notin covers THEN
-                  (IF \E c \in ColsOf(M) : T.prim[c] /\ Hits(M, SolSet(s), c) # 1 THEN "Selection.primary_column_not_covered_exactly_once"
+                  (IF \E c \in 1..Len(T.prim) : T.prim[c] /\ Hits(M, SolSet(s), c) # 1 THEN "Selection.primary_column_not_covered_exactly_once"
                    ELSE IF \E c \in ColsOf(M) : ~T.prim[c] /\ Hits(M, SolSet(s), c) > 1 THEN "Selection.secondary_column_covered_twice"
                    ELSE "Selection.row_without_primary_column_selected")
              ELSE ""
